@@ -105,9 +105,10 @@ def campaign(tier, seed):
                 raise ToolError("harness failed: " + out[-2000:])
             hstat = json.loads(out.strip().splitlines()[-1])
             tv_out = st.path("tv_%s.out" % camp)
-            tv = run_tlc("ModuleTrace", os.path.join(SPEC, "ModuleTrace.cfg"), tv_out, workers=1,
-                         env={"TRACE": trace}, deque=True, timeout=3000)
-            if not tv["ok"] or tv["distinct"] != hstat["events"] + 1:
+            # one TLC run per group of whole histories (a history starts with its base event)
+            tv = run_tlc_trace("ModuleTrace", os.path.join(SPEC, "ModuleTrace.cfg"), trace, tv_out, workers=1,
+                               chunk=15000, par=12, boundary=lambda line: '"t":"base"' in line, deque=True, timeout=3000)
+            if not tv["ok"] or tv["distinct"] != hstat["events"] + tv["chunks"]:
                 raise ToolError("trace validation did not consume all events (camp %s): %s / %s vs %s"
                                 % (camp, tv["error"], tv["distinct"], hstat["events"]))
             drift += sum(1 for _ in tagged(tv_out, "SPEC-DRIFT"))
